@@ -985,3 +985,22 @@ Qed.
 Theorem failed_export_views st i st' e : ExportSM.step cfg U st (Export i) = (st', Err e) -> forall q, view st' q = view st q.
 Proof. intros H. destruct (export_failed_frame cfg U Hcwd _ _ _ _ H) as (Hr & _ & Hf). exact (view_same _ _ Hr Hf). Qed.
 End Obstacles.
+
+(* the first successful export of a type to a path in a process writes exactly its export text there, whatever happened
+   before (failed attempts, obstacles placed and removed, stale content) *)
+Section FirstTouch.
+Variable cfg : config.
+Variable U : universe.
+
+Theorem export_to_first_touch st i path p st' : target_of cfg path = Some p -> reg_get (s_reg st) p = None ->
+  ExportSM.export_to cfg U st i path = (st', Ok tt) ->
+  exists buffer, export_to_string (c_esm cfg) (c_cwd cfg) U i (default_out_dir cfg) = Ok buffer /\
+                 fs_get (s_fs st') p = Some (File buffer) /\ reg_get (s_reg st') p = Some [t_ident (tget U i)].
+Proof.
+  unfold target_of, ExportSM.export_to. intros Ht Hr H.
+  destruct (absolute (c_cwd cfg) path) as [cs|e|m]; try discriminate Ht. inversion Ht; subst p. clear Ht.
+  destruct (export_to_string _ _ _ _ _) as [buffer|e|m]; try (inversion H; fail).
+  destruct (match parent_of (names_of_abs cs) with Some d => create_dir_all (s_fs st) d | None => Ok (s_fs st) end) as [fs1|e|m]; try (inversion H; fail).
+  exists buffer. split; [reflexivity|]. exact (first_touch_truncates {| s_fs := fs1; s_reg := s_reg st; s_poisoned := s_poisoned st |} _ _ _ _ Hr H).
+Qed.
+End FirstTouch.
